@@ -667,4 +667,337 @@ theorem acyclic_setNode (c : Circuit) (n0 : Nat) (o : Option Op) (hac : c.Acycli
   rw [E_congr (c := c) (c' := c.setNode n0 o) rfl rfl rfl rfl]
   exact hac
 
+/-! ### `add`: appending an operation at the end of its wires -/
+
+theorem mem_sortRegs (l : List Reg) (r : Reg) : r ∈ sortRegs l ↔ r ∈ l := by
+  induction l with
+  | nil => simp [sortRegs]
+  | cons a l ih =>
+    have h := List.takeWhile_append_dropWhile (p := fun x : Reg => decide (x.sortKey < a.sortKey)) (l := sortRegs l)
+    have hm : r ∈ sortRegs l ↔
+        r ∈ (sortRegs l).takeWhile (fun x => decide (x.sortKey < a.sortKey)) ∨
+        r ∈ (sortRegs l).dropWhile (fun x => decide (x.sortKey < a.sortKey)) := by
+      rw [← List.mem_append, h]
+    show r ∈ (sortRegs l).takeWhile _ ++ a :: (sortRegs l).dropWhile _ ↔ _
+    rw [List.mem_append, List.mem_cons, List.mem_cons, ← ih, hm]
+    constructor
+    · rintro (h | h | h)
+      · exact Or.inr (Or.inl h)
+      · exact Or.inl h
+      · exact Or.inr (Or.inr h)
+    · rintro (h | h | h)
+      · exact Or.inr (Or.inl h)
+      · exact Or.inl h
+      · exact Or.inr (Or.inr h)
+
+theorem addRegIfAbsent_of_valid (c : Circuit) (r : Reg) (h : c.validReg r = true) : c.addRegIfAbsent r = .ok c := by
+  unfold Circuit.addRegIfAbsent
+  simp only [Circuit.validReg, decide_eq_true_eq] at h
+  rw [if_pos h]
+
+theorem foldlM_ok_const {α : Type} (f : Circuit → α → Except Err Circuit) (c : Circuit) (l : List α)
+    (h : ∀ x, x ∈ l → f c x = .ok c) : l.foldlM f c = .ok c := by
+  induction l with
+  | nil => rfl
+  | cons a l ih =>
+    rw [List.foldlM_cons, h a List.mem_cons_self]
+    exact ih (fun x hx => h x (List.mem_cons_of_mem _ hx))
+
+theorem add_of_valid (c : Circuit) (op : Op) (hq : ∀ r, r ∈ op.q → c.validReg r = true)
+    (hc : ∀ i, i ∈ op.cr → c.validReg ⟨.c, i⟩ = true) : c.add op = .ok (c.addCore op) := by
+  unfold Circuit.add
+  rw [foldlM_ok_const _ c op.cr (fun i hi => addRegIfAbsent_of_valid c _ (hc i hi))]
+  show (do let c2 ← (sortRegs op.q).foldlM (fun (c' : Circuit) r => c'.addRegIfAbsent r) c; pure (c2.addCore op)) = _
+  rw [foldlM_ok_const _ c (sortRegs op.q) (fun r hr => addRegIfAbsent_of_valid c _ (hq r ((mem_sortRegs _ _).mp hr)))]
+  rfl
+
+/-- the edges `_add` splices the node into -/
+def endEdges (c : Circuit) (op : Op) : List Edge := op.addRegs.map fun r => ⟨r, (c.wire r).length⟩
+
+theorem addCore_eq (c : Circuit) (op : Op) : c.addCore op = c.insertAt op (endEdges c op) := rfl
+
+theorem endEdges_regs (c : Circuit) (op : Op) : (endEdges c op).map (·.r) = op.addRegs := by
+  simp [endEdges, Function.comp_def]
+
+theorem mem_endEdges {c : Circuit} {op : Op} {e : Edge} (h : e ∈ endEdges c op) :
+    e.r ∈ op.addRegs ∧ e.pos = (c.wire e.r).length := by
+  simp only [endEdges, List.mem_map] at h
+  obtain ⟨r, hr, rfl⟩ := h
+  exact ⟨hr, rfl⟩
+
+theorem dst_end (c : Circuit) (e : Edge) (h : e.pos = (c.wire e.r).length) : c.dst e = V.out e.r := by
+  simp [Circuit.dst, h]
+
+theorem ins_end (w : List Nat) (k : Nat) : ins w w.length k = w ++ [k] := by simp [ins]
+
+theorem adj_snoc_left {α : Type} {A : List α} {z a b : α} (h : Adj (A ++ [z]) a b) : a ∈ A := by
+  induction A with
+  | nil => simp [Adj] at h
+  | cons x A ih =>
+    cases A with
+    | nil =>
+      simp only [Adj, List.cons_append, List.nil_append, pairs_cons_cons, pairs_singleton, List.mem_singleton,
+        Prod.mk.injEq] at h
+      simp [h.1]
+    | cons y A' =>
+      simp only [Adj, List.cons_append, pairs_cons_cons, List.mem_cons, Prod.mk.injEq] at h
+      rcases h with ⟨rfl, _⟩ | h
+      · exact List.mem_cons_self
+      · exact List.mem_cons_of_mem _ (ih h)
+
+theorem out_no_succ (c : Circuit) (r : Reg) (b : V) : ¬ c.E (V.out r) b := by
+  intro h
+  obtain ⟨r', _, hadj⟩ := (E_iff c _ _).mp h
+  have : c.aug r' = (V.inp r' :: (c.wire r').map V.op) ++ [V.out r'] := by simp [Circuit.aug]
+  rw [this] at hadj
+  have hm := adj_snoc_left hadj
+  simp at hm
+
+theorem reach_from_out (c : Circuit) (r : Reg) (x : V) (h : ReflTransGen c.E (V.out r) x) : x = V.out r := by
+  rcases ReflTransGen.cases_head h with h | ⟨y, hy, _⟩
+  · exact h.symm
+  · exact absurd hy (out_no_succ c r y)
+
+theorem acyclic_addCore (c : Circuit) (op : Op) (hwf : c.WF) (hac : c.Acyclic) (hnd : op.addRegs.Nodup) :
+    (c.addCore op).Acyclic := by
+  rw [addCore_eq]
+  refine acyclic_insertAt c op _ hwf hac (by rw [endEdges_regs]; exact hnd) ?_
+  intro e1 _ e2 he2 hreach
+  rw [dst_end c e2 (mem_endEdges he2).2] at hreach
+  have := reach_from_out c _ _ hreach
+  rcases src_cases c e1 with h | ⟨n, _, h⟩ <;> rw [h] at this <;> cases this
+
+theorem WF_addCore (c : Circuit) (op : Op) (hwf : c.WF) (hnd : op.addRegs.Nodup)
+    (hqv : ∀ r, r ∈ op.q → c.validReg r = true ∧ r.ty ≠ .c) (hcv : ∀ i, i ∈ op.cr → c.validReg ⟨.c, i⟩ = true) :
+    (c.addCore op).WF := by
+  rw [addCore_eq]
+  refine WF_insertAt c op _ hwf (by rw [endEdges_regs]; exact hnd) ?_ ?_ ?_ hqv
+  · intro e he
+    have := (mem_endEdges he).1
+    simp only [Op.addRegs, List.mem_append, List.mem_map] at this
+    rcases this with h | ⟨i, hi, h⟩
+    · exact (hqv _ h).1
+    · rw [← h]; exact hcv i hi
+  · intro r hr
+    rw [endEdges_regs]
+    simp only [Op.addRegs, List.mem_append, List.mem_map]
+    constructor
+    · rintro (h | ⟨i, _, h⟩)
+      · exact h
+      · exact absurd (by rw [← h]) hr
+    · exact Or.inl
+  · intro i hi
+    rw [endEdges_regs] at hi
+    simp only [Op.addRegs, List.mem_append, List.mem_map] at hi
+    rcases hi with h | ⟨i', hi', h⟩
+    · exact absurd rfl (hqv _ h).2
+    · cases h; exact hi'
+
+theorem addCore_wire (c : Circuit) (op : Op) (hnd : op.addRegs.Nodup) (r : Reg) :
+    (c.addCore op).wire r = if r ∈ op.addRegs then c.wire r ++ [c.nid + 1] else c.wire r := by
+  rw [addCore_eq]
+  split
+  · rename_i h
+    have he : (⟨r, (c.wire r).length⟩ : Edge) ∈ endEdges c op := List.mem_map.mpr ⟨r, h, rfl⟩
+    have := insertAt_wire_of_mem c op (endEdges c op) (by rw [endEdges_regs]; exact hnd) _ he
+    simp only at this
+    rw [this, ins_end]
+  · rename_i h
+    exact insertAt_wire_of_not_mem c op _ r (by rw [endEdges_regs]; exact h)
+
+theorem addCore_ne (c : Circuit) (op : Op) : (c.addCore op).ne = c.ne := insertAt_ne _ _ _
+theorem addCore_np (c : Circuit) (op : Op) : (c.addCore op).np = c.np := insertAt_np _ _ _
+theorem addCore_nc (c : Circuit) (op : Op) : (c.addCore op).nc = c.nc := insertAt_nc _ _ _
+
+theorem validReg_e (c : Circuit) (a : Nat) (h : a < c.ne) : c.validReg ⟨.e, a⟩ = true := by
+  simp [Circuit.validReg, Circuit.count, h]
+theorem validReg_p (c : Circuit) (a : Nat) (h : a < c.np) : c.validReg ⟨.p, a⟩ = true := by
+  simp [Circuit.validReg, Circuit.count, h]
+theorem validReg_c (c : Circuit) (a : Nat) (h : a < c.nc) : c.validReg ⟨.c, a⟩ = true := by
+  simp [Circuit.validReg, Circuit.count, h]
+
+/-! ## 6. `flat` is invariant under the rewrites (C13) -/
+
+/-- flattening of a list of node ids -/
+def Circuit.F (c : Circuit) (l : List Nat) : List Item :=
+  l.flatMap fun n => match c.node n with
+    | some op => flatOp op
+    | none => []
+
+theorem flatWire_eq_F (c : Circuit) (r : Reg) : c.flatWire r = c.F (c.wire r) := rfl
+
+theorem F_nil (c : Circuit) : c.F [] = [] := rfl
+
+theorem F_append (c : Circuit) (l1 l2 : List Nat) : c.F (l1 ++ l2) = c.F l1 ++ c.F l2 := by
+  simp [Circuit.F, List.flatMap_append]
+
+theorem F_cons (c : Circuit) (n : Nat) (l : List Nat) : c.F (n :: l) = c.F [n] ++ c.F l := by
+  simp [Circuit.F]
+
+theorem F_single_some (c : Circuit) (n : Nat) (op : Op) (h : c.node n = some op) : c.F [n] = flatOp op := by
+  simp [Circuit.F, h]
+
+theorem F_congr {c c' : Circuit} {l : List Nat} (h : ∀ n, n ∈ l → c'.node n = c.node n) : c'.F l = c.F l := by
+  induction l with
+  | nil => rfl
+  | cons n l ih =>
+    rw [F_cons c', F_cons c, ih (fun m hm => h m (List.mem_cons_of_mem _ hm))]
+    simp [Circuit.F, h n List.mem_cons_self]
+
+theorem qregs_ty (c : Circuit) (r : Reg) (h : r ∈ c.qregs) : r.ty ≠ .c := by
+  simp only [Circuit.qregs, Circuit.regsOf, List.mem_append, List.mem_map] at h
+  rcases h with ⟨i, _, rfl⟩ | ⟨i, _, rfl⟩ <;> simp
+
+/-- two circuits with the same register counts and the same flattened quantum wires have the same `flat` -/
+theorem flat_eq_of {c c' : Circuit} (h1 : c'.ne = c.ne) (h2 : c'.np = c.np) (h3 : c'.nc = c.nc)
+    (h : ∀ r : Reg, r ∈ c.qregs → c'.flatWire r = c.flatWire r) : c'.flat = c.flat := by
+  have hq : c'.qregs = c.qregs := by simp [Circuit.qregs, Circuit.regsOf, Circuit.count, h1, h2]
+  simp only [Circuit.flat, h1, h2, h3, hq]
+  congr 3
+  exact List.map_congr_left (fun r hr => h r hr)
+
+/-- removing a node whose flattening is empty does not change the flattening of any wire -/
+theorem F_removeOp_filter (c : Circuit) (n : Nat) (l : List Nat) (h : ∀ op, c.node n = some op → flatOp op = []) :
+    (c.removeOp n).F (l.filter fun m => m ≠ n) = c.F l := by
+  induction l with
+  | nil => rfl
+  | cons m l ih =>
+    by_cases hm : m = n
+    · subst hm
+      rw [List.filter_cons_of_neg (by simp), ih, F_cons c]
+      cases hn : c.node m with
+      | none => simp [Circuit.F, hn]
+      | some op => rw [F_single_some c m op hn, h op hn]; rfl
+    · rw [List.filter_cons_of_pos (by simpa using hm), F_cons (c.removeOp n), F_cons c, ih]
+      congr 1
+      simp [Circuit.F, removeOp_node, hm]
+
+theorem flatWire_removeOp (c : Circuit) (n : Nat) (r : Reg) (h : ∀ op, c.node n = some op → flatOp op = []) :
+    (c.removeOp n).flatWire r = c.flatWire r := by
+  rw [flatWire_eq_F, flatWire_eq_F]
+  exact F_removeOp_filter c n (c.wire r) h
+
+/-- `flat (copy c) = flat c` -/
+theorem flat_copy (c : Circuit) : c.copy.flat = c.flat := rfl
+
+/-- `flat (remove_identity c) = flat c`, whatever the iteration order -/
+theorem flat_removeIdentity (c : Circuit) (order : List Nat) : (c.removeIdentity order).flat = c.flat := by
+  unfold Circuit.removeIdentity
+  induction order generalizing c with
+  | nil => rfl
+  | cons n order ih =>
+    simp only [List.foldl_cons]
+    rw [ih]
+    split
+    · rename_i q cr fx hnode
+      refine flat_eq_of rfl rfl rfl (fun r _ => flatWire_removeOp c n r ?_)
+      intro op hop
+      rw [hnode] at hop
+      cases hop
+      rfl
+    · rfl
+
+/-- the operations' register lists are duplicate-free and their classical registers exist -/
+def Circuit.OpsOk (c : Circuit) : Prop :=
+  ∀ n op, c.node n = some op → op.addRegs.Nodup ∧ ∀ i, i ∈ op.cr → i < c.nc
+
+theorem mem_qregs (c : Circuit) (r : Reg) : r ∈ c.qregs ↔ (c.validReg r = true ∧ r.ty ≠ .c) := by
+  rcases r with ⟨ty, i⟩
+  cases ty <;> simp [Circuit.qregs, Circuit.regsOf, Circuit.validReg, Circuit.count] <;> exact decide_eq_true_iff.symm
+
+theorem validReg_congr {c c' : Circuit} (h1 : c'.ne = c.ne) (h2 : c'.np = c.np) (h3 : c'.nc = c.nc) (r : Reg) :
+    c'.validReg r = c.validReg r := by
+  rcases r with ⟨ty, i⟩
+  cases ty <;> simp [Circuit.validReg, Circuit.count, h1, h2, h3] <;> rfl
+
+structure AssignInv (c c' : Circuit) (P : List Nat) : Prop where
+  hne : c'.ne = c.ne
+  hnp : c'.np = c.np
+  hnc : c'.nc = c.nc
+  hnid : c'.nid = P.length
+  bound : ∀ r m, m ∈ c'.wire r → m ≤ c'.nid
+  flat : ∀ r, r ∈ c.qregs → c'.F (c'.wire r) = c.F (P.filter fun n => decide (n ∈ c.wire r))
+
+theorem assign_step (c c' : Circuit) (P : List Nat) (n : Nat) (op : Op) (hwf : c.WF) (hok : c.OpsOk)
+    (hnode : c.node n = some op) (hinv : AssignInv c c' P) :
+    c'.add op = Except.ok (c'.addCore op) ∧ AssignInv c (c'.addCore op) (P ++ [n]) := by
+  obtain ⟨hne, hnp, hnc, hnid, hbound, hflat⟩ := hinv
+  obtain ⟨hnd, hcr⟩ := hok n op hnode
+  have hvalid : ∀ r, c'.validReg r = c.validReg r := validReg_congr hne hnp hnc
+  refine ⟨add_of_valid c' op (fun r hr => by rw [hvalid]; exact (hwf.qvalid n op hnode r hr).1)
+    (fun i hi => by rw [hvalid]; exact validReg_c c i (hcr i hi)), ?_⟩
+  have hwire := addCore_wire c' op hnd
+  refine ⟨by rw [addCore_ne]; exact hne, by rw [addCore_np]; exact hnp, by rw [addCore_nc]; exact hnc, ?_, ?_, ?_⟩
+  · rw [addCore_eq, insertAt_nid, hnid]; simp
+  · intro r m hm
+    rw [hwire] at hm
+    rw [addCore_eq, insertAt_nid]
+    split at hm
+    · rcases List.mem_append.mp hm with hm | hm
+      · have := hbound r m hm; omega
+      · simp only [List.mem_singleton] at hm; omega
+    · have := hbound r m hm; omega
+  · intro r hr
+    have hty : r.ty ≠ .c := ((mem_qregs c r).mp hr).2
+    have hnodes : ∀ m, m ∈ c'.wire r → (c'.addCore op).node m = c'.node m := by
+      intro m hm
+      have := hbound r m hm
+      rw [addCore_eq, insertAt_node, if_neg (by omega)]
+    have hk : (c'.addCore op).node (c'.nid + 1) = some op := by rw [addCore_eq, insertAt_node, if_pos rfl]
+    rw [hwire, List.filter_append, F_append]
+    have hmem : (r ∈ op.addRegs) ↔ n ∈ c.wire r := by
+      rw [hwf.qwire n op hnode r hty]
+      simp only [Op.addRegs, List.mem_append, List.mem_map]
+      constructor
+      · rintro (h | ⟨i, _, h⟩)
+        · exact h
+        · exact absurd (by rw [← h]) hty
+      · exact Or.inl
+    by_cases hin : n ∈ c.wire r
+    · rw [if_pos (hmem.mpr hin), F_append, F_congr hnodes, hflat r hr]
+      congr 1
+      rw [F_single_some _ _ op hk]
+      simp [hin, Circuit.F, hnode]
+    · rw [if_neg (fun h => hin (hmem.mp h)), F_congr hnodes, hflat r hr]
+      simp [hin, Circuit.F]
+
+theorem assign_fold (c : Circuit) (hwf : c.WF) (hok : c.OpsOk) (seq : List Nat) (c' : Circuit) (P : List Nat) (cf : Circuit)
+    (hinv : AssignInv c c' P)
+    (h : seq.foldlM (fun c'' n => match c.node n with
+      | some op => c''.add op
+      | none => Except.error Err.key) c' = Except.ok cf) :
+    AssignInv c cf (P ++ seq) := by
+  induction seq generalizing c' P with
+  | nil =>
+    simp only [List.foldlM_nil] at h
+    cases h
+    simpa using hinv
+  | cons n seq ih =>
+    rw [List.foldlM_cons] at h
+    cases hnode : c.node n with
+    | none => simp [hnode] at h; cases h
+    | some op =>
+      simp only [hnode] at h
+      obtain ⟨hadd, hinv'⟩ := assign_step c c' P n op hwf hok hnode hinv
+      rw [hadd] at h
+      have := ih (c'.addCore op) (P ++ [n]) hinv' h
+      simpa using this
+
+/-- `flat (assign_noise c ∅) = flat c` for every topological order the sequence may come in -/
+theorem flat_assignNoise (c : Circuit) (seq : List Nat) (cf : Circuit) (hwf : c.WF) (hok : c.OpsOk)
+    (h : c.assignNoise seq = Except.ok cf) : cf.flat = c.flat := by
+  unfold Circuit.assignNoise at h
+  split at h
+  · cases h
+  · rename_i hlin
+    have hlin' : c.isLinearExtension seq = true := by simpa using hlin
+    have h0 : AssignInv c (Circuit.empty c.ne c.np c.nc) [] :=
+      ⟨rfl, rfl, rfl, rfl, fun r m hm => by simp [Circuit.empty] at hm, fun r _ => rfl⟩
+    have hinv := assign_fold c hwf hok seq _ [] cf h0 h
+    refine flat_eq_of hinv.hne hinv.hnp hinv.hnc (fun r hr => ?_)
+    rw [flatWire_eq_F, flatWire_eq_F, hinv.flat r hr]
+    simp only [Circuit.isLinearExtension, Bool.and_eq_true, List.all_eq_true, decide_eq_true_eq] at hlin'
+    have hr' : r ∈ c.regs := (mem_regs_iff c r).mpr ((mem_qregs c r).mp hr).1
+    rw [List.nil_append, hlin'.2 r hr']
+
 end Graphiq.Wire
